@@ -1,13 +1,13 @@
 #!/bin/bash
-# tools/seed_setup.sh <seed-id> <prop-id>: scratch worktree /tmp/wt/<seed-id> of /repo HEAD without
-# the contract files, and /tmp/seedout/<seed-id>/property.json with the property text only.
+# tools/seed_setup.sh <seed-id> <prop-id>: scratch worktree /var/tmp/wt/<seed-id> of /repo HEAD without
+# the contract files, and /var/tmp/seedout/<seed-id>/property.json with the property text only.
 set -e
 ID="$1"; PROP="$2"
-mkdir -p /tmp/wt /tmp/seedout/$ID
-git -C /repo worktree remove --force /tmp/wt/$ID 2>/dev/null || true
-rm -rf /tmp/wt/$ID
-git -C /repo worktree add -q --detach /tmp/wt/$ID HEAD
-cd /tmp/wt/$ID
+mkdir -p /var/tmp/wt /var/tmp/seedout/$ID
+git -C /repo worktree remove --force /var/tmp/wt/$ID 2>/dev/null || true
+rm -rf /var/tmp/wt/$ID
+git -C /repo worktree add -q --detach /var/tmp/wt/$ID HEAD
+cd /var/tmp/wt/$ID
 find . -name verif_contracts.go -delete
 git -c user.name=scratch -c user.email=s@x commit -qam "scratch: sources only"
 python3 - "$PROP" "$ID" <<'PY'
@@ -15,6 +15,6 @@ import json,sys
 for l in open('/verif/properties.jsonl'):
     d=json.loads(l)
     if d['id']==sys.argv[1]:
-        json.dump(d,open('/tmp/seedout/%s/property.json'%sys.argv[2],'w'),indent=1)
+        json.dump(d,open('/var/tmp/seedout/%s/property.json'%sys.argv[2],'w'),indent=1)
 PY
-echo "ready /tmp/wt/$ID"
+echo "ready /var/tmp/wt/$ID"
